@@ -74,6 +74,22 @@ Definition nn_solve (maxit : nat) (prog : list nblock) (U Tg : list nat) (shocks
   end.
 End Nested.
 
+(** ---- steady state of a model that contains solved blocks: CombinedBlock._steady_state evaluates the blocks one after another; SolvedBlock._steady_state hands
+     its inner model to a root finder (brentq, broyden, ...: abstract here) for the values of its unknowns and reports the inner model evaluated at them ---- *)
+Section NestedSS.
+Variable solver : solved -> tbl -> option (list Qc).       (* the root finder on the table as it stands: values of the unknowns, or failure *)
+Definition set_vals (us : list nat) (vs : list Qc) (t : tbl) : tbl := fold_left (fun t uv => upd_nth (fst uv) (snd uv) t) (combine us vs) t.
+Definition ss_nblock (t : tbl) (nb : nblock) : option tbl :=
+  match nb with
+  | NSimple b => Some (ss_block t b)
+  | NSolved s => match solver s t with Some vs => Some (ss_eval (sv_inner s) (set_vals (sv_U s) vs t)) | None => None end
+  end.
+Definition ss_neval (prog : list nblock) (t0 : tbl) : option tbl :=
+  fold_left (fun ot nb => match ot with None => None | Some t => ss_nblock t nb end) prog (Some t0).
+End NestedSS.
+(** the calibration with the values a table reports for the given names copied in *)
+Definition copy_vals (us : list nat) (t t0 : tbl) : tbl := fold_left (fun q u => upd_nth u (qlookup t u) q) us t0.
+
 (** the same equations left in the outer model *)
 Definition flatten (prog : list nblock) : list sblock :=
   flat_map (fun nb => match nb with NSimple b => [b] | NSolved s => sv_inner s end) prog.
